@@ -2,10 +2,8 @@
 //! SimWriter under short writes and not-ready results, and the body's streaming encoder into a
 //! SimSink under short writes and EINTR.
 
-use std::future::Future;
 use std::panic::AssertUnwindSafe;
 use std::pin::Pin;
-use std::task::{Context, Poll};
 
 use mqtt_proto::VarBytes;
 
@@ -69,36 +67,6 @@ pub fn gen(rng: &mut Rng, tier: Tier, idx: u64) -> Case {
 
 pub fn run(c: &Case, trace: bool) -> RunOut {
     dispatch!(c.fam, run_g(c, trace))
-}
-
-/// Minimal join of two futures: both are polled on every wake-up until each has finished.
-struct Join2<'a, T> {
-    a: Pin<Box<dyn Future<Output = T> + 'a>>,
-    b: Pin<Box<dyn Future<Output = T> + 'a>>,
-    ra: Option<T>,
-    rb: Option<T>,
-}
-
-impl<T: Unpin> Future for Join2<'_, T> {
-    type Output = (T, T);
-    fn poll(self: Pin<&mut Self>, cx: &mut Context<'_>) -> Poll<(T, T)> {
-        let this = self.get_mut();
-        if this.ra.is_none() {
-            if let Poll::Ready(x) = this.a.as_mut().poll(cx) {
-                this.ra = Some(x);
-            }
-        }
-        if this.rb.is_none() {
-            if let Poll::Ready(x) = this.b.as_mut().poll(cx) {
-                this.rb = Some(x);
-            }
-        }
-        if this.ra.is_some() && this.rb.is_some() {
-            Poll::Ready((this.ra.take().unwrap(), this.rb.take().unwrap()))
-        } else {
-            Poll::Pending
-        }
-    }
 }
 
 pub fn varbytes_inner(v: &VarBytes) -> Vec<u8> {
